@@ -158,6 +158,12 @@ pub fn layouts() -> Vec<Layout> {
     ]
 }
 
+/// Drops a database that may have lost workers without waiting for it: its threads are told to stop (so they do not
+/// keep the machine busy for the rest of the run); if the drop itself hangs, only the detached thread does.
+pub fn discard(b: Built) {
+    std::thread::spawn(move || drop(b));
+}
+
 pub struct Built {
     pub db: Arc<LocustDB>,
     _dir: Option<tempfile::TempDir>,
@@ -392,7 +398,7 @@ pub fn check_groups(b: &mut Built, rebuild: &dyn Fn() -> Result<Built, String>, 
             std::thread::sleep(std::time::Duration::from_millis(200));
             if let Ok(nb) = rebuild() {
                 let old = std::mem::replace(b, nb);
-                std::mem::forget(old);
+                discard(old);
                 crate::util::take_panics();
                 res = run_sql(&b.db.clone(), &sql);
             }
@@ -446,7 +452,7 @@ pub fn check_groups(b: &mut Built, rebuild: &dyn Fn() -> Result<Built, String>, 
                     match rebuild() {
                         Ok(nb) => {
                             let old = std::mem::replace(b, nb);
-                            std::mem::forget(old);
+                            discard(old);
                         }
                         Err(_) => break,
                     }
